@@ -4,7 +4,6 @@ import (
 	"fmt"
 	"strings"
 
-	"github.com/dolthub/go-mysql-server/vh/internal/kf"
 	"pgregory.net/rapid"
 )
 
@@ -186,10 +185,7 @@ func (w *W) Int(d int) string {
 		return "SIGN(" + w.Int(d-1) + ")"
 	case 4:
 		w.feat("numfn")
-		if kf.Listed(idNegZero) {
-			// region of C05-hashin-negative-zero (while listed): MOD with a negative divisor yields -0
-			return "MOD(" + w.Int(d-1) + "," + w.oneOf("modk", "2", "3") + ")"
-		}
+		// MOD with a negative operand yields -0 (formerly the region of C07-hashin-negzero, repaired)
 		return "MOD(" + w.Int(d-1) + "," + w.oneOf("modk", "2", "3", "-2") + ")"
 	case 5:
 		w.feat("numfn")
